@@ -6,6 +6,8 @@ verus! {
 broadcast use {axiom_string_ext, axiom_str_ext, axiom_str_of, axiom_vec_ext, axiom_vec_of, axiom_display_string, axiom_display_str, axiom_display_usize};
 //@include spec/indexset.rs
 //@include units/fol_types.inc
+//@include spec/sem.rs
+//@type src/command_line/arguments.rs :: enum Decomposition
 
 } // verus!
 pub mod problem {
@@ -48,6 +50,200 @@ pub proof fn lemma_unique_names(i: nat, j: nat, a: Seq<char>, b: Seq<char>)
         assert forall|k: int| 0 <= k < di.len() implies di[k] == dj[k] by { assert(x[8 + k] == y[8 + k]); }
     }
     axiom_decimal_injective(i, j);
+}
+
+// ---- decomposition (C19, C09): structure ---------------------------------------------------------------------------------
+/// the formulas with the given role among the first n, in order (spec of `iter().filter(role ==).cloned().collect_vec()`)
+pub open spec fn by_role(fs: Seq<AnnotatedFormula>, role: Role, n: int) -> Seq<AnnotatedFormula>
+    decreases n,
+{
+    if n <= 0 { Seq::empty() } else if fs[n - 1].role == role { by_role(fs, role, n - 1).push(fs[n - 1]) } else { by_role(fs, role, n - 1) }
+}
+pub proof fn lemma_by_role_len(fs: Seq<AnnotatedFormula>, role: Role, n: int)
+    requires 0 <= n <= fs.len(),
+    ensures by_role(fs, role, n).len() <= n,
+    decreases n,
+{
+    if n > 0 { lemma_by_role_len(fs, role, n - 1); }
+}
+pub proof fn lemma_by_role_roles(fs: Seq<AnnotatedFormula>, role: Role, n: int)
+    requires 0 <= n <= fs.len(),
+    ensures forall|i: int| 0 <= i < by_role(fs, role, n).len() ==> (#[trigger] by_role(fs, role, n)[i]).role == role,
+    decreases n,
+{
+    if n > 0 { lemma_by_role_roles(fs, role, n - 1); }
+}
+pub open spec fn axioms_of(p: Problem) -> Seq<AnnotatedFormula> { by_role(p.formulas@, Role::Axiom, p.formulas@.len() as int) }
+pub open spec fn conjectures_of(p: Problem) -> Seq<AnnotatedFormula> { by_role(p.formulas@, Role::Conjecture, p.formulas@.len() as int) }
+
+pub open spec fn sub_name(p: Problem, i: int) -> Seq<char> { p.name@ + "_"@ + decimal(i as nat) }
+
+/// the i-th problem of the independent decomposition: the axioms and the i-th conjecture
+pub open spec fn independent_at(p: Problem, q: Problem, i: int) -> bool {
+    q.formulas@ == axioms_of(p).push(conjectures_of(p)[i]) && q.name@ == sub_name(p, i) && q.interpretation == p.interpretation
+}
+pub open spec fn independent_ok(p: Problem, r: Seq<Problem>) -> bool {
+    r.len() == conjectures_of(p).len() && forall|i: int| 0 <= i < r.len() ==> #[trigger] independent_at(p, r[i], i)
+}
+
+pub open spec fn as_axiom(f: AnnotatedFormula) -> AnnotatedFormula { AnnotatedFormula { name: f.name, role: Role::Axiom, formula: f.formula } }
+pub open spec fn as_axioms(fs: Seq<AnnotatedFormula>) -> Seq<AnnotatedFormula> { Seq::new(fs.len(), |i: int| as_axiom(fs[i])) }
+
+/// the i-th problem of the sequential decomposition: the axioms, the earlier conjectures as axioms, and the i-th conjecture
+pub open spec fn sequential_at(p: Problem, q: Problem, i: int) -> bool {
+    q.formulas@ == axioms_of(p) + as_axioms(conjectures_of(p).take(i)) + seq![conjectures_of(p)[i]] && q.name@ == sub_name(p, i) && q.interpretation == p.interpretation
+}
+pub open spec fn sequential_ok(p: Problem, r: Seq<Problem>) -> bool {
+    r.len() == conjectures_of(p).len() && forall|i: int| 0 <= i < r.len() ==> #[trigger] sequential_at(p, r[i], i)
+}
+
+// ---- decomposition (C19): an interpretation refutes the problem iff it refutes one of its parts ---------------------------------
+/// `truth` is the truth of formulas in some fixed interpretation (any logic, any class of interpretations): the interpretation does not
+/// refute q if, whenever all axioms of q are true, all its conjectures are
+pub open spec fn not_refuted(q: Problem, truth: spec_fn(Formula) -> bool) -> bool {
+    (forall|j: int| 0 <= j < q.formulas@.len() && (#[trigger] q.formulas@[j]).role == Role::Axiom ==> truth(q.formulas@[j].formula))
+    ==> (forall|j: int| 0 <= j < q.formulas@.len() && (#[trigger] q.formulas@[j]).role == Role::Conjecture ==> truth(q.formulas@[j].formula))
+}
+
+pub proof fn lemma_by_role_mem(fs: Seq<AnnotatedFormula>, role: Role, n: int, x: AnnotatedFormula)
+    requires 0 <= n <= fs.len(),
+    ensures by_role(fs, role, n).contains(x) == (exists|j: int| 0 <= j < n && #[trigger] fs[j] == x && fs[j].role == role),
+    decreases n,
+{
+    if n > 0 {
+        lemma_by_role_mem(fs, role, n - 1, x);
+        let pre = by_role(fs, role, n - 1);
+        let cur = by_role(fs, role, n);
+        if cur.contains(x) {
+            let i = choose|i: int| 0 <= i < cur.len() && cur[i] == x;
+            if i < pre.len() { assert(pre[i] == x); assert(pre.contains(x)); } else { assert(fs[n - 1] == x); }
+        }
+        if exists|j: int| 0 <= j < n && #[trigger] fs[j] == x && fs[j].role == role {
+            let j = choose|j: int| 0 <= j < n && #[trigger] fs[j] == x && fs[j].role == role;
+            if j < n - 1 { assert(pre.contains(x)); let i = choose|i: int| 0 <= i < pre.len() && pre[i] == x; assert(cur[i] == x); }
+            else { assert(cur[cur.len() - 1] == x); }
+        }
+    }
+}
+
+pub open spec fn all_true(fs: Seq<AnnotatedFormula>, truth: spec_fn(Formula) -> bool) -> bool { forall|k: int| 0 <= k < fs.len() ==> truth((#[trigger] fs[k]).formula) }
+
+/// not_refuted in terms of the two role-filtered lists
+pub proof fn lemma_not_refuted(p: Problem, truth: spec_fn(Formula) -> bool)
+    ensures not_refuted(p, truth) == (all_true(axioms_of(p), truth) ==> all_true(conjectures_of(p), truth)),
+{
+    let fs = p.formulas@;
+    let n = fs.len() as int;
+    let ax = axioms_of(p);
+    let cs = conjectures_of(p);
+    assert forall|role: Role| (forall|j: int| 0 <= j < n && (#[trigger] fs[j]).role == role ==> truth(fs[j].formula)) == all_true(#[trigger] by_role(fs, role, n), truth) by {
+        let l = by_role(fs, role, n);
+        if forall|j: int| 0 <= j < n && (#[trigger] fs[j]).role == role ==> truth(fs[j].formula) {
+            assert forall|k: int| 0 <= k < l.len() implies truth((#[trigger] l[k]).formula) by {
+                lemma_by_role_mem(fs, role, n, l[k]);
+                assert(l.contains(l[k]));
+                let j = choose|j: int| 0 <= j < n && #[trigger] fs[j] == l[k] && fs[j].role == role;
+            }
+        }
+        if all_true(l, truth) {
+            assert forall|j: int| 0 <= j < n && (#[trigger] fs[j]).role == role implies truth(fs[j].formula) by {
+                lemma_by_role_mem(fs, role, n, fs[j]);
+                let k = choose|k: int| 0 <= k < l.len() && l[k] == fs[j];
+                assert(truth(l[k].formula));
+            }
+        }
+    }
+    assert(by_role(fs, Role::Axiom, n) == ax);
+    assert(by_role(fs, Role::Conjecture, n) == cs);
+}
+
+/// a problem made of premises (all axioms) and one conjecture
+pub proof fn lemma_single(q: Problem, prem: Seq<AnnotatedFormula>, c: AnnotatedFormula, truth: spec_fn(Formula) -> bool)
+    requires q.formulas@ == prem.push(c), c.role == Role::Conjecture, forall|k: int| 0 <= k < prem.len() ==> (#[trigger] prem[k]).role == Role::Axiom,
+    ensures not_refuted(q, truth) == (all_true(prem, truth) ==> truth(c.formula)),
+{
+    let fs = q.formulas@;
+    if all_true(prem, truth) { assert forall|j: int| 0 <= j < fs.len() && (#[trigger] fs[j]).role == Role::Axiom implies truth(fs[j].formula) by { assert(j < prem.len()); assert(truth(prem[j].formula)); } }
+    if forall|j: int| 0 <= j < fs.len() && (#[trigger] fs[j]).role == Role::Axiom ==> truth(fs[j].formula) {
+        assert forall|k: int| 0 <= k < prem.len() implies truth((#[trigger] prem[k]).formula) by { assert(fs[k] == prem[k]); }
+    }
+    if truth(c.formula) { assert forall|j: int| 0 <= j < fs.len() && (#[trigger] fs[j]).role == Role::Conjecture implies truth(fs[j].formula) by { assert(j == prem.len()); } }
+    if forall|j: int| 0 <= j < fs.len() && (#[trigger] fs[j]).role == Role::Conjecture ==> truth(fs[j].formula) { assert(fs[prem.len() as int] == c); }
+}
+
+/// C19 (independent): the interpretation refutes p iff it refutes one of the emitted problems
+pub proof fn lemma_independent_sound(p: Problem, r: Seq<Problem>, truth: spec_fn(Formula) -> bool)
+    requires independent_ok(p, r),
+    ensures (forall|i: int| 0 <= i < r.len() ==> #[trigger] not_refuted(r[i], truth)) == not_refuted(p, truth),
+{
+    let ax = axioms_of(p);
+    let cs = conjectures_of(p);
+    lemma_not_refuted(p, truth);
+    lemma_by_role_roles(p.formulas@, Role::Axiom, p.formulas@.len() as int);
+    lemma_by_role_roles(p.formulas@, Role::Conjecture, p.formulas@.len() as int);
+    assert forall|i: int| 0 <= i < r.len() implies #[trigger] not_refuted(r[i], truth) == (all_true(ax, truth) ==> truth(cs[i].formula)) by {
+        assert(independent_at(p, r[i], i));
+        lemma_single(r[i], ax, cs[i], truth);
+    }
+    if forall|i: int| 0 <= i < r.len() ==> #[trigger] not_refuted(r[i], truth) {
+        if all_true(ax, truth) { assert forall|k: int| 0 <= k < cs.len() implies truth((#[trigger] cs[k]).formula) by { assert(not_refuted(r[k], truth)); } }
+    }
+    if not_refuted(p, truth) {
+        assert forall|i: int| 0 <= i < r.len() implies #[trigger] not_refuted(r[i], truth) by { if all_true(ax, truth) { assert(truth(cs[i].formula)); } }
+    }
+}
+
+/// C19 (sequential): the same, although later problems use earlier conjectures as axioms
+pub proof fn lemma_sequential_sound(p: Problem, r: Seq<Problem>, truth: spec_fn(Formula) -> bool)
+    requires sequential_ok(p, r),
+    ensures (forall|i: int| 0 <= i < r.len() ==> #[trigger] not_refuted(r[i], truth)) == not_refuted(p, truth),
+{
+    let ax = axioms_of(p);
+    let cs = conjectures_of(p);
+    lemma_not_refuted(p, truth);
+    lemma_by_role_roles(p.formulas@, Role::Axiom, p.formulas@.len() as int);
+    lemma_by_role_roles(p.formulas@, Role::Conjecture, p.formulas@.len() as int);
+    assert forall|i: int| 0 <= i < r.len() implies #[trigger] not_refuted(r[i], truth) == ((all_true(ax, truth) && all_true(cs.take(i), truth)) ==> truth(cs[i].formula)) by {
+        assert(sequential_at(p, r[i], i));
+        let prem = ax + as_axioms(cs.take(i));
+        assert(r[i].formulas@ =~= prem.push(cs[i]));
+        assert forall|k: int| 0 <= k < prem.len() implies (#[trigger] prem[k]).role == Role::Axiom by { if k < ax.len() { assert(prem[k] == ax[k]); } else { assert(prem[k] == as_axiom(cs.take(i)[k - ax.len()])); } }
+        lemma_single(r[i], prem, cs[i], truth);
+        if all_true(prem, truth) {
+            assert forall|k: int| 0 <= k < ax.len() implies truth((#[trigger] ax[k]).formula) by { assert(prem[k] == ax[k]); }
+            assert forall|k: int| 0 <= k < cs.take(i).len() implies truth((#[trigger] cs.take(i)[k]).formula) by { assert(prem[ax.len() + k] == as_axiom(cs.take(i)[k])); }
+        }
+        if all_true(ax, truth) && all_true(cs.take(i), truth) {
+            assert forall|k: int| 0 <= k < prem.len() implies truth((#[trigger] prem[k]).formula) by {
+                if k < ax.len() { assert(prem[k] == ax[k]); } else { assert(prem[k] == as_axiom(cs.take(i)[k - ax.len()])); assert(truth(cs.take(i)[k - ax.len()].formula)); }
+            }
+        }
+    }
+    if forall|i: int| 0 <= i < r.len() ==> #[trigger] not_refuted(r[i], truth) {
+        if all_true(ax, truth) { lemma_chain(r, ax, cs, truth, cs.len() as int); assert(cs.take(cs.len() as int) =~= cs); }
+    }
+    if not_refuted(p, truth) {
+        assert forall|i: int| 0 <= i < r.len() implies #[trigger] not_refuted(r[i], truth) by { if all_true(ax, truth) { assert(truth(cs[i].formula)); } }
+    }
+}
+
+/// the induction behind the sequential decomposition: the first n conjectures are true
+pub proof fn lemma_chain(r: Seq<Problem>, ax: Seq<AnnotatedFormula>, cs: Seq<AnnotatedFormula>, truth: spec_fn(Formula) -> bool, n: int)
+    requires
+        0 <= n <= cs.len(), r.len() == cs.len(), all_true(ax, truth),
+        forall|i: int| 0 <= i < r.len() ==> #[trigger] not_refuted(r[i], truth),
+        forall|i: int| 0 <= i < r.len() ==> #[trigger] not_refuted(r[i], truth) == ((all_true(ax, truth) && all_true(cs.take(i), truth)) ==> truth(cs[i].formula)),
+    ensures all_true(cs.take(n), truth),
+    decreases n,
+{
+    if n > 0 {
+        lemma_chain(r, ax, cs, truth, n - 1);
+        assert(not_refuted(r[n - 1], truth));
+        assert(truth(cs[n - 1].formula));
+        assert forall|k: int| 0 <= k < cs.take(n).len() implies truth((#[trigger] cs.take(n)[k]).formula) by {
+            if k < n - 1 { assert(cs.take(n)[k] == cs.take(n - 1)[k]); assert(truth(cs.take(n - 1)[k].formula)); }
+        }
+    }
 }
 
 impl Problem {
@@ -110,6 +306,92 @@ impl Problem {
 //@             if formulas@[i].name@ == formulas@[j].name@ { lemma_unique_names(i as nat, j as nat, old_formulas[i].name@, old_formulas[j].name@); }
 //@         }
 //@     }
+//@end
+
+//@fn src/verifying/problem/mod.rs :: impl Problem :: fn axioms
+//@ .ret r
+//@ .attr #[verifier::loop_isolation(false)]
+//@ .spec
+//@     ensures r@ == by_role(self.formulas@, Role::Axiom, self.formulas@.len() as int),
+//@ .loop 1 as it
+//@     invariant
+//@         it.seq().len() == self.formulas@.len(), forall|j: int| 0 <= j < self.formulas@.len() ==> *it.seq()[j] == self.formulas@[j],
+//@         d22_0_out@ == by_role(self.formulas@, Role::Axiom, it.index@ as int),
+//@end
+//@fn src/verifying/problem/mod.rs :: impl Problem :: fn conjectures
+//@ .ret r
+//@ .attr #[verifier::loop_isolation(false)]
+//@ .spec
+//@     ensures r@ == by_role(self.formulas@, Role::Conjecture, self.formulas@.len() as int),
+//@ .loop 1 as it
+//@     invariant
+//@         it.seq().len() == self.formulas@.len(), forall|j: int| 0 <= j < self.formulas@.len() ==> *it.seq()[j] == self.formulas@[j],
+//@         d22_0_out@ == by_role(self.formulas@, Role::Conjecture, it.index@ as int),
+//@end
+
+//@fn src/verifying/problem/mod.rs :: impl Problem :: fn decompose_independent
+//@ .ret r
+//@ .fmt
+//@ .attr #[verifier::loop_isolation(false)]
+//@ .spec
+//@     ensures independent_ok(*self, r@),
+//@ .hint before "{ let mut d21_0_out"
+//@     let ghost cs = by_role(self.formulas@, Role::Conjecture, self.formulas@.len() as int);
+//@     proof { vstd::std_specs::vec::axiom_spec_len(&self.formulas); lemma_by_role_len(self.formulas@, Role::Conjecture, self.formulas@.len() as int); }
+//@ .loop 1 as it
+//@     invariant
+//@         it.seq() == cs, cs.len() <= usize::MAX,
+//@         d21_0_k == it.index@, d21_0_out@.len() == it.index@,
+//@         forall|i: int| 0 <= i < it.index@ ==> #[trigger] independent_at(*self, d21_0_out@[i], i),
+//@end
+
+//@fn src/verifying/problem/mod.rs :: impl Problem :: fn decompose_sequential
+//@ .ret r
+//@ .fmt
+//@ .attr #[verifier::loop_isolation(false)]
+//@ .spec
+//@     ensures sequential_ok(*self, r@),
+//@ .hint before "{ let mut d21_0_out"
+//@     let ghost ax = by_role(self.formulas@, Role::Axiom, self.formulas@.len() as int);
+//@     let ghost cs = by_role(self.formulas@, Role::Conjecture, self.formulas@.len() as int);
+//@     proof { vstd::std_specs::vec::axiom_spec_len(&self.formulas); lemma_by_role_len(self.formulas@, Role::Conjecture, self.formulas@.len() as int);
+//@             lemma_by_role_roles(self.formulas@, Role::Axiom, self.formulas@.len() as int); }
+//@ .loop 1 as it
+//@     invariant
+//@         it.seq() == cs, cs.len() <= usize::MAX,
+//@         d21_0_k == it.index@, d21_0_out@.len() == it.index@,
+//@         it.index@ == 0 ==> formulas@ == ax,
+//@         it.index@ > 0 ==> formulas@ == ax + as_axioms(cs.take(it.index@ - 1)) + seq![cs[it.index@ - 1]],
+//@         forall|i: int| 0 <= i < it.index@ ==> #[trigger] sequential_at(*self, d21_0_out@[i], i),
+//@ .hint before "formulas.push(c);"
+//@     proof {
+//@         let n = it.index@;
+//@         assert(formulas@ == ax + as_axioms(cs.take(n))) by {
+//@             if n > 0 {
+//@                 assert(cs.take(n) =~= cs.take(n - 1).push(cs[n - 1]));
+//@                 assert(as_axioms(cs.take(n)) =~= as_axioms(cs.take(n - 1)).push(as_axiom(cs[n - 1])));
+//@                 assert(formulas@ =~= ax + as_axioms(cs.take(n)));
+//@             } else {
+//@                 assert(as_axioms(cs.take(0)) =~= Seq::<AnnotatedFormula>::empty());
+//@                 assert(formulas@ =~= ax + as_axioms(cs.take(0))) by {
+//@                     if ax.len() > 0 { assert(ax.last().role == Role::Axiom); assert(formulas@.last() == ax.last()); }
+//@                 }
+//@             }
+//@         }
+//@     }
+//@ .hint after "formulas.push(c);"
+//@     proof {
+//@         let n = it.index@;
+//@         assert(c == cs[n]);
+//@         assert(formulas@ =~= ax + as_axioms(cs.take(n)) + seq![cs[n]]);
+//@         assert(cs.take(n + 1 - 1) =~= cs.take(n));
+//@     }
+//@end
+
+//@fn src/verifying/problem/mod.rs :: impl Problem :: fn decompose
+//@ .ret r
+//@ .spec
+//@     ensures strategy is Independent ==> independent_ok(*self, r@), strategy is Sequential ==> sequential_ok(*self, r@),
 //@end
 }
 
